@@ -307,7 +307,8 @@ def corpus():
     out = [{'op': 'name', 'input': p} for p in (
         [], [60], [60, 49], [60, 71], [60, 64, 67], [59, 62, 67], [53, 60, 64, 67, 70], [67, 71, 72, 74, 77],
         list(range(60, 72)), [48, 61, 69], [48, 69, 61], [-1, -13, 0], [60, 64, 67, 71], [60, 70], [60, 69, 75],
-        [62, 60, 64, 67], [60, 62, 64, 67], [49, 60, 64, 68], [60, 63, 66, 69], [57, 60, 64, 67], [60, 60, 72])]
+        [62, 60, 64, 67], [60, 62, 64, 67], [49, 60, 64, 68], [60, 63, 66, 69], [57, 60, 64, 67], [60, 60, 72],
+        [62, 66, 69, 76], [60, 62, 67, 71], [60, 62, 67, 70], [12, 1])]
     out += [{'op': 'parse', 'input': f} for f in (
         ('C', 'Cm', 'C+', 'Co', 'C7', 'D7b9', 'C-(M7)', 'G(add2)(#5)', 'Abm7/Cb', 'D##5(add6)', 'F(b7)(#9)(b13)',
         'Cped(add7)', 'Cped(add#7)', 'Cped(addb7)', 'C7(add7)', 'C(no3)', 'C(no4)', 'Csus(add3)', 'C6/9', 'C6/9/E',
